@@ -82,18 +82,46 @@ LerpExact(f, a, b) == SDAdd(SDMul(SDSub(SDOne, Val(f)), Val(a)), SDMul(Val(f), V
 \* must lie within the accumulated bound of the standard model, 2^-(MB-1) for madd (two roundings) and
 \* 2^-(MB-2) for lerp (three roundings on either path), of the magnitudes of the terms, plus one denormal step.
 Tiny == SDPow2(1 - BIAS - MB)
+\* the largest finite magnitude is below 2^(BIAS+1); a law is stated only when every exact intermediate value (plus its
+\* bound) stays below it - an overflowing evaluation is neither required nor forbidden to return an infinity
+InRangeV(v, slack, top) == SDLess(SDAdd(SDAbs(v), slack), top)
+Top32 == SDPow2(BIAS + 1)
+Top64 == SDPow2(1024)
 MaddOk(a, b, c, r) ==
   (IsFinite(a) /\ IsFinite(b) /\ IsFinite(c)) =>
-     /\ IsFinite(r)
-     /\ LET bound == SDAdd(SDScale(SDAdd(SDAbs(SDMul(Val(a), Val(b))), SDAbs(Val(c))), 0 - (MB - 1)), Tiny)
-        IN SDLessEq(SDAbs(SDSub(Val(r), MaddExact(a, b, c))), bound)
+     LET p == SDMul(Val(a), Val(b))
+         bound == SDAdd(SDScale(SDAdd(SDAbs(p), SDAbs(Val(c))), 0 - (MB - 1)), Tiny)
+     IN (InRangeV(p, bound, Top32) /\ InRangeV(MaddExact(a, b, c), bound, Top32)) =>
+           (IsFinite(r) /\ SDLessEq(SDAbs(SDSub(Val(r), MaddExact(a, b, c))), bound))
+\* the same law on exact values (used for binary32, for the double instantiation and for integer element types)
+LerpExactV(fv, av, bv) == SDAdd(SDMul(SDSub(SDOne, fv), av), SDMul(fv, bv))
+LerpBoundV(fv, av, bv, relbits, tiny) ==
+  SDAdd(SDScale(SDAdd(SDAbs(SDMul(SDSub(SDOne, fv), av)), SDAbs(SDMul(fv, bv))), 0 - relbits), tiny)
+LerpOkV(fv, av, bv, rv, relbits, tiny) == SDLessEq(SDAbs(SDSub(rv, LerpExactV(fv, av, bv))), LerpBoundV(fv, av, bv, relbits, tiny))
+LerpStatedV(fv, av, bv, relbits, tiny, top) ==
+  LET d == LerpBoundV(fv, av, bv, relbits, tiny)
+  IN InRangeV(SDMul(SDSub(SDOne, fv), av), d, top) /\ InRangeV(SDMul(fv, bv), d, top) /\ InRangeV(LerpExactV(fv, av, bv), d, top)
 LerpOk(f, a, b, r) ==
-  (IsFinite(f) /\ IsFinite(a) /\ IsFinite(b)) =>
+  (IsFinite(f) /\ IsFinite(a) /\ IsFinite(b) /\ LerpStatedV(Val(f), Val(a), Val(b), MB - 2, Tiny, Top32)) =>
      /\ IsFinite(r)
-     /\ LET t1 == SDAbs(SDMul(SDSub(SDOne, Val(f)), Val(a)))
-            t2 == SDAbs(SDMul(Val(f), Val(b)))
-            bound == SDAdd(SDScale(SDAdd(t1, t2), 0 - (MB - 2)), Tiny)
-        IN SDLessEq(SDAbs(SDSub(Val(r), LerpExact(f, a, b))), bound)
+     /\ LerpOkV(Val(f), Val(a), Val(b), Val(r), MB - 2, Tiny)
+\* lerp<double>(float factor, double a, double b): 1.f - factor is formed in binary32, so the accumulated bound is the
+\* binary32 one; operands and result are binary64 patterns (quarters)
+LerpD64Ok(f, a, b, r) ==
+  (IsFinite(f) /\ D64IsFinite(a) /\ D64IsFinite(b) /\ LerpStatedV(Val(f), D64Val(a), D64Val(b), MB - 2, D64Tiny, Top64)) =>
+     /\ D64IsFinite(r)
+     /\ LerpOkV(Val(f), D64Val(a), D64Val(b), D64Val(r), MB - 2, D64Tiny)
+\* lerp<T> for an integer type T = [tmin, tmax] (a, b, r integers as SD numbers): the float expression is converted back
+\* to T by truncation, so r is within the accumulated bound plus one of the exact value.  Stated when the exact value,
+\* truncated, is a value of T (the statement cannot ask for a value the type does not have).
+LerpIntStated(fv, av, bv, tmin, tmax) == LET e == LerpExactV(fv, av, bv) IN SDLess(SDSub(tmin, SDOne), e) /\ SDLess(e, SDAdd(tmax, SDOne))
+LerpIntOk(fv, av, bv, rv, tmin, tmax) ==
+  LerpIntStated(fv, av, bv, tmin, tmax) => LerpOkV(fv, av, bv, rv, MB - 2, SDOne)
+\* can the rounded float value of the expression lie outside T although the exact value does not?
+LerpIntNearEdge(fv, av, bv, tmin, tmax) ==
+  LET e == LerpExactV(fv, av, bv)
+      d == LerpBoundV(fv, av, bv, MB - 2, SDOne)
+  IN ~(SDLess(SDSub(tmin, SDOne), SDSub(e, d)) /\ SDLess(SDAdd(e, d), SDAdd(tmax, SDOne)))
 
 \* pi bracketed by two dyadic numbers 2^-60 apart: PiLo = floor(pi * 2^60) / 2^60 (ScalarKernelsMC checks the limb
 \* literal against the decimal digits 3.14159265358979323846 and against Archimedes' and Zu's bounds)
@@ -104,16 +132,20 @@ PiHi  == SD(FALSE, Add(PiLoM, One), 0 - 60)
 \* product each round once; a product below the normal range is rounded to a multiple of the denormal step), decided
 \* with the bracket, for x >= 0:  |x| PiLo (1 - 2^-(MB-1)) - 180 Tiny <= 180 r <= |x| PiHi (1 + 2^-(MB-1)) + 180 Tiny,
 \* and for x < 0 the same about -r
-Deg2RadOk(x, r) ==
-  IsFinite(x) =>
-     /\ IsFinite(r)
-     /\ LET ax   == SDAbs(Val(x))
-            sr   == IF x.s = 1 THEN SDNeg(Val(r)) ELSE Val(r)
-            lhs  == SDMul(SDInt(180), sr)
-            slack == SDMul(SDInt(180), Tiny)
-            lo   == SDSub(SDMul(SDMul(ax, PiLo), SDSub(SDOne, SDPow2(0 - (MB - 1)))), slack)
-            hi   == SDAdd(SDMul(SDMul(ax, PiHi), SDAdd(SDOne, SDPow2(0 - (MB - 1)))), slack)
-        IN SDLessEq(lo, lhs) /\ SDLessEq(lhs, hi)
+Deg2RadOkV(xv, rv, relbits, tiny) ==
+  LET ax   == SDAbs(xv)
+      sr   == IF xv.neg THEN SDNeg(rv) ELSE rv
+      lhs  == SDMul(SDInt(180), sr)
+      slack == SDMul(SDInt(180), tiny)
+      lo   == SDSub(SDMul(SDMul(ax, PiLo), SDSub(SDOne, SDPow2(0 - relbits))), slack)
+      hi   == SDAdd(SDMul(SDMul(ax, PiHi), SDAdd(SDOne, SDPow2(0 - relbits))), slack)
+  IN SDLessEq(lo, lhs) /\ SDLessEq(lhs, hi)
+Deg2RadOk(x, r) == IsFinite(x) => (IsFinite(r) /\ Deg2RadOkV(Val(x), Val(r), MB - 1, Tiny))
+\* deg2rad<double>: the constant and the product each round once in binary64 (2^-53 each): within 2^-50
+Deg2RadD64Ok(x, r) == (D64IsFinite(x) /\ D64Exp(x) <= 2000) => (D64IsFinite(r) /\ Deg2RadOkV(D64Val(x), D64Val(r), 50, D64Tiny))
+
+\* rcp_safe(double) / clamp<double> on binary64 patterns
+RcpSafeD64Ok(x, r) == D64IsFinite(r) /\ ~(~D64IsZero(x) /\ ~D64IsZero(r) /\ D64Sign(x) # D64Sign(r))
 
 \* ---------------------------------------------------------------------------------------
 \* 8-bit packing: monotone, saturating, per-channel  (binary32 halves)
@@ -169,6 +201,9 @@ InRangeStep(v, lo, hi) ==
      \/ LET step == SDPow2(IF Exp2(lo) > Exp2(hi) THEN Exp2(lo) ELSE Exp2(hi))
         IN /\ SDLessEq(SDSub(Val(lo), step), Val(v))
            /\ SDLessEq(Val(v), SDAdd(Val(hi), step))
+\* upper - lower itself is not a finite float (|upper - lower| rounds to infinity: at least 2^(BIAS+1) - 2^(BIAS-MB-1))
+WidthOverflows(lo, hi) ==
+  SDLessEq(SDSub(SDPow2(BIAS + 1), SDPow2(BIAS - MB - 1)), SDAbs(SDSub(Val(hi), Val(lo))))
 \* a and b: the streams of two generators constructed from the same arguments
 DistFailures(lo, hi, a, b) ==
   (IF a = b THEN {} ELSE {"reproducible"})
